@@ -36,10 +36,13 @@ QNorm(q) == IF q[1] = 0 THEN <<0, 1>>
             ELSE LET g == GCD(Abs(q[1]), Abs(q[2]))
                      s == IF q[2] < 0 THEN 0 - 1 ELSE 1
                  IN <<(s * q[1]) \div g, (s * q[2]) \div g>>
-QAdd(a, b) == QNorm(<<a[1] * b[2] + b[1] * a[2], a[2] * b[2]>>)
+\* cross-cancelling forms keep the intermediate products inside TLC's 32-bit integers
+QAdd(a, b) == LET g == GCD(a[2], b[2]) IN QNorm(<<a[1] * (b[2] \div g) + b[1] * (a[2] \div g), (a[2] \div g) * b[2]>>)
 QNeg(a)    == <<0 - a[1], a[2]>>
 QSub(a, b) == QAdd(a, QNeg(b))
-QMul(a, b) == QNorm(<<a[1] * b[1], a[2] * b[2]>>)
+QMul(a, b) == IF a[1] = 0 \/ b[1] = 0 THEN <<0, 1>>
+              ELSE LET g1 == GCD(Abs(a[1]), Abs(b[2]))  g2 == GCD(Abs(b[1]), Abs(a[2]))
+                   IN QNorm(<<(a[1] \div g1) * (b[1] \div g2), (a[2] \div g2) * (b[2] \div g1)>>)
 QInv(a)    == QNorm(<<a[2], a[1]>>)
 QDiv(a, b) == QMul(a, QInv(b))
 QLt(a, b)  == a[1] * b[2] < b[1] * a[2]            \* both denominators positive
@@ -150,7 +153,9 @@ IdealAtom(t) ==
 SymPart(t) == DropLast(t, RunLen(t, ExpCharsCode, 0))
 PrefixChars == UNION {{Prefixes[p].sym[i] : i \in 1..Len(Prefixes[p].sym)} : p \in 1..NP}
 \* the text has no reading but a proper suffix of its symbol part has one: characters in front of a
-\* valid [prefix]symbol - all of them prefix letters (extra) or not (foreign)
+\* valid [prefix]symbol.  Exactly one table prefix in front of a bare symbol that does not admit it is the
+\* property's "prefix the unit does not admit"; otherwise the characters are extra - all of them prefix
+\* letters (extra_lead_char) or not (foreign_lead_char)
 LeadTags(t) ==
   LET sp == SymPart(t) IN
   IF sp = <<>> \/ Readings(sp) # {} THEN {}
@@ -158,7 +163,9 @@ LeadTags(t) ==
        IF ks = {} THEN {}
        ELSE LET k == CHOOSE x \in ks : \A y \in ks : x <= y
                 junk == SubSeq(sp, 1, k)
-            IN IF AllIn(junk, PrefixChars) THEN {"extra_lead_char"} ELSE {"foreign_lead_char"}
+                rd == Readings(SubSeq(sp, k + 1, Len(sp)))
+            IN IF (\E p \in 1..NP : Prefixes[p].sym = junk) /\ (\A r \in rd : r[1] = "u" /\ r[2] = 0) THEN {"inadmissible_prefix"}
+               ELSE IF AllIn(junk, PrefixChars) THEN {"extra_lead_char"} ELSE {"foreign_lead_char"}
 OutTags(o) == IF o.cls = "unit" /\ o.p > 0 /\ Len(Prefixes[o.p].sym) > 1 THEN {"prefix_two_letter"} ELSE {}
 AtomTextTags(t) == IF NumberLike(t) THEN {} ELSE LeadTags(t) \cup OutTags(IdealAtom(t))
 
